@@ -53,7 +53,7 @@ def analyse(job):
     stats = {"items": 0, "named": 0}
     data = open(os.path.join(d, c["file"]), "rb").read()
     try:
-        doc = pdf.Document(data)
+        doc = pdf.Document(data, password=(c.get("password") or "").encode("utf-8") if c.get("enc") else None)
         pages = doc.pages()
         page_nums = [p[0] for p in pages]
         root_ref = doc.root().get(b"Outlines")
